@@ -348,10 +348,10 @@ class ImageBatch(DataTensor):
             if not same_grid:
                 return data
         if isinstance(grid, Grid):
-            if data.ndim < 3:
+            if data.ndim != self.ndim - 1:
                 return data
             return self._make_subitem(data, grid)
-        elif data.ndim < 4:
+        elif data.ndim != self.ndim:
             return data
         return self._make_instance(data, grid)
 
